@@ -21,13 +21,17 @@ from jax2onnx.converter.typing_support import LoweringContextProtocol
 from jax2onnx.plugins.jax._autodiff_utils import register_jvp_rule
 from jax2onnx.plugins.plugin_system import PrimitiveLeafPlugin, register_primitive
 from jax2onnx.plugins.jax.nn._builder_utils import (
+    lower_scaled_exp_linear_in_double,
+    needs_double_parameters,
     register_unary_elementwise_batch_rule,
 )
-
 
 _SELU_PRIM: Final[Primitive] = Primitive("jax.nn.selu")
 _SELU_PRIM.multiple_results = False
 _JAX_SELU_ORIG: Final = jax.nn.selu
+# jax.nn.selu's constants in double precision (the ONNX Selu defaults are their float32 roundings)
+_SELU_ALPHA: Final[float] = 1.6732632423543772848170429916717
+_SELU_SCALE: Final[float] = 1.0507009873554804934193349852946
 
 
 @register_primitive(
@@ -90,6 +94,17 @@ class SeluPlugin(PrimitiveLeafPlugin):
         return ShapedArray(x.shape, x.dtype)
 
     def lower(self, ctx: LoweringContextProtocol, eqn: JaxprEqn) -> None:
+        if needs_double_parameters(ctx, eqn, _SELU_ALPHA, _SELU_SCALE):
+            lower_scaled_exp_linear_in_double(
+                ctx,
+                eqn,
+                kind="selu",
+                alpha=_SELU_ALPHA,
+                gamma=_SELU_SCALE,
+                input_hint="selu_in",
+                output_hint="selu_out",
+            )
+            return
         x_var = eqn.invars[0]
         out_var = eqn.outvars[0]
 
@@ -172,8 +187,8 @@ def _selu_jvp_rule(
 
     zero = jnp.asarray(0.0, dtype=x.dtype)
     one = jnp.asarray(1.0, dtype=x.dtype)
-    alpha = jnp.asarray(1.6732631921768188, dtype=x.dtype)
-    gamma = jnp.asarray(1.0507010221481323, dtype=x.dtype)
+    alpha = jnp.asarray(_SELU_ALPHA, dtype=x.dtype)
+    gamma = jnp.asarray(_SELU_SCALE, dtype=x.dtype)
 
     exp_x = jax.lax.exp(x)
     neg = jax.lax.mul(alpha, jax.lax.sub(exp_x, one))
